@@ -1,14 +1,19 @@
-"""C02 - Decoders never panic, hang, over-read or mutate on arbitrary input (binary part: spec/Wire.tla)."""
+"""C02 - Decoders never panic, hang, over-read or mutate on arbitrary input (binary: spec/Wire.tla; XML / JSON / HTTP: spec/TextShapes.tla)."""
 from checks import wirecommon as wc
+from checks import shapes
 
 
 def run(ctx):
     cases = wc.tlc_modes(ctx, ["mutants", "noncanon"])
     n = wc.replay(ctx, cases, ["c02:"])
+    rows, bases, _ = shapes.replay(ctx)
+    nt = shapes.judge_c02(ctx, rows)
     ctx.finish("model_checking", {
-        "evaluations": n,
+        "evaluations": n + 3 * nt,
+        "text_shape_cases": nt,
+        "text_rule": "TLC enumerates from TextShapes.tla every (base document x encoding x node x mutation) - 3 documents reaching every TTLV type, 29-38 nodes each, ~110 mutations of tag, type, value, children, the JSON kind of the node and the XML token stream, truncation at every node - each rendered to a concrete XML / JSON text and decoded twice into the typed message, once into ttlv.Value, and (requests) posted to the HTTP handler: no panic, no hang (10 s), input unchanged, same result twice, ServeHTTP returns",
         "distinct_nontrivial": len([c for c in cases if not c.get("accept")]),
         "rule": "inputs = every truncation, every single-header corruption (type in {0..11,255}, length in {0,1,4,7,8,9,16,rem-1,rem,rem+1,2^31-1,2^32-8,2^32-1}, tag in {0,1}) and trailing garbage of 4 base encodings (nested structures, big integer, date), plus accepted non-canonical encodings, enumerated by TLC from MCWire.tla together with the verdict of the specification's total parser; each is decoded twice by the library into ttlv.Value (and once into RequestMessage / ResponseMessage): no panic, no hang, input unchanged, same result twice, and whatever is accepted must be exactly what Wire.tla's parser reads inside the declared extents; non-trivial = inputs the wire format rejects",
         "exhaustive": True, "cases_replayed_against_impl": n, "samples": cases[10:12] + cases[-2:],
-    }, assumptions=["binary decoder only in this check; XML / JSON malformed shapes are not yet covered by a specification (see DESIGN.md section 7)",
+    }, assumptions=["XML / JSON inputs are structured mutations of three base documents (one mutation per input), not arbitrary byte strings; the XML tokenizer and JSON parser underneath are Go's standard library",
                     "Stream.Recv and the HTTP handler feed the same UnmarshalTTLV; they are exercised by the C07 / C08 drivers"])
